@@ -15,7 +15,8 @@ LEMMAS = {
             (['freeT'], [('projections of a supplied T', LM.L_Tproj)], {})],
     'C10': [(['onshell', 'onshell_vac'], [('Weyl tensor', LM.L_weyl), ('electric/magnetic parts', LM.L_EB)], {}),
             (['onshell'], [('quasi-Kinnersley triad', LM.L_tetrad_qk)], {}),
-            (['onshell_fluidtetrad'], [('fluid tetrad', LM.L_tetrad_fluid)], {'numeric': True})],
+            (['onshell_fluidtetrad'], [('fluid tetrad', LM.L_tetrad_fluid)], {'numeric': True}),
+            (['onshell', 'onshell_vac'], [('tetrad orientation', LM.L_tetrad_orientation)], {'numeric': True})],
     'C19': [(['onshell'], [('Eulerian kinematics', LM.L_kinematics)], {})],
 }
 
@@ -51,7 +52,10 @@ FUNCS = {
                'Momentumx_norm', 'Momentumy_norm', 'Momentumz_norm', 'Momentumdownx_norm', 'Momentumdowny_norm',
                'Momentumdownz_norm'],
         helpers=['Lie_beta', 's_covd', 'tracefree3', 'trace3'],
-        scens=['onshell', 'onshell_vac', 'onshell_comp'], thorough_scens=['onshell', 'onshell_vac', 'onshell_comp'],
+        # 'fluid': matter given as fluid variables (no Tdown4 input) -- off-shell, so no textbook time derivative, but every function
+        # must still give the same value in every cache state of its guard keys
+        scens=['onshell', 'onshell_vac', 'onshell_comp', 'fluid'], thorough_scens=['onshell', 'onshell_vac', 'onshell_comp', 'fluid', 'fluid_comp'],
+        chain_scens=['onshell', 'onshell_vac', 'onshell_comp'],
         chain=['Hamiltonian', 'Momentumup3', 'Momentumdown3', 'dtKtrace', 'dtphi_bssnok', 'dtgammaup3',
                'dtgammadown3_bssnok', 'dtAdown3_bssnok', 'dts_Gamma_bssnok', 'rho_n_fromHam', 'fluxup3_n_fromMom']),
     'C09': dict(
@@ -83,7 +87,8 @@ FUNCS = {
                'hdown4', 'hup4', 'hmixed4', 'conserved_D', 'conserved_E', 'conserved_Sdown4', 'conserved_Sdown3',
                'conserved_Sup4', 'conserved_Sup3'],
         helpers=['st_covd'],
-        scens=['onshell', 'onshell_comp'], thorough_scens=['onshell', 'onshell_comp'],
+        # 'onshell_vac': the vacuum flag set (on Ricci-flat data with a generic, time-dependent lapse) -- every vacuum shortcut
+        scens=['onshell', 'onshell_comp', 'onshell_vac'], thorough_scens=['onshell', 'onshell_comp', 'onshell_vac'],
         chain=['uup4', 'st_covd_udown4', 'accelerationdown4', 'theta', 'sheardown4', 'shear2', 'omegadown4',
                'omega2', 'thetadown4']),
 }
